@@ -5,7 +5,7 @@
 From Coq Require Import String.
 From Coq Require Import List Arith ZArith.
 Import ListNotations.
-From YP Require Import Base.Str Term.Term Unify.Unify Engine.Db Engine.DbFacts Engine.DbFactsThms.
+From YP Require Import Base.Str Term.Term Unify.Unify Engine.Db Engine.DbFacts Engine.DbFactsThms Engine.DbHeap Engine.DbHeapThms.
 
 (* "A fact stored by assert holds the value its argument had at the moment of the assertion, at every
    depth of the term": the stored arguments are den s values (deep dereference: any chain, any nesting)
@@ -45,6 +45,72 @@ Theorem C13_two_uses_disjoint : forall s1 s2 stored n1 cs1 n1' n2 cs2 n2',
             (occurs_l w cs2 = true -> occurs_l w stored = false).
 Proof. exact two_uses_disjoint. Qed.
 Print Assumptions C13_two_uses_disjoint.
+
+(* "Unbound variables inside a stored fact belong to the fact": an invariant over ALL histories of the
+   heap machine DbHeap.v (suspended unifications = bindings made before / after the assertion, through
+   chains, inside structures; asserta/assertz under those bindings, also of a goal held in a variable;
+   goals on the facts that stay suspended; resumption and closing in LIFO order = backtracking; reads).
+   op_ok p: the program's terms mention only the program's own variables (cells < p; the API gives no
+   access to the Variable objects inside an Answer).  In every reachable state, for every variable w
+   inside a stored fact: w is unbound, no binding of the heap mentions w, no suspended goal mentions w,
+   and w is not a program variable. *)
+Theorem C13_fact_vars_never_bound : forall fuel p ops h outs,
+  Forall (op_ok p) ops -> hrun fuel (hinit p) ops = Some (h, outs) ->
+  forall k f t w, In f (hdb h k) -> In t (fargs f) -> occurs w t = true ->
+    lookup w (hs h) = None /\
+    (forall v u, In (v, u) (hs h) -> v <> w /\ occurs w u = false) /\
+    (forall pat rest mk, In (FQuery pat rest mk) (hstk h) -> forall a, In a pat -> occurs w a = false) /\
+    p <= w.
+Proof. exact fact_vars_never_bound. Qed.
+Print Assumptions C13_fact_vars_never_bound.
+
+(* the invariant itself, from any state that satisfies it (F = the cells owned by facts) *)
+Theorem C13_heap_invariant : forall fuel ops p F h h' outs, inv p F h -> Forall (op_ok p) ops ->
+  hrun fuel h ops = Some (h', outs) -> exists F', inv p F' h' /\ (forall w, F w = true -> F' w = true).
+Proof. exact hrun_inv. Qed.
+Print Assumptions C13_heap_invariant.
+
+(* "... and are fresh at every use, so two simultaneous uses of the same fact, or a use and the clause
+   that asserted it, never constrain each other" + "later binding, unbinding or backtracking of
+   variables that occurred in it never changes what the fact matches": in every reachable state, whatever
+   the heap is, a use of a stored fact unifies the goal with copy_args [] (fargs f) n - a function of the
+   stored arguments and the allocation counter only - and every cell of that copy is new (not allocated
+   before), unbound, and occurs in no stored fact *)
+Theorem C13_uses_see_stored_value : forall fuel p ops h outs,
+  Forall (op_ok p) ops -> hrun fuel (hinit p) ops = Some (h, outs) ->
+  forall k f goal, In f (hdb h k) ->
+    answer_match fuel (hs h) (hn h) goal (fargs f) =
+      (unify_arrays fuel (hs h) goal (fst (copy_args [] (fargs f) (hn h))), snd (copy_args [] (fargs f) (hn h))) /\
+    (forall t w, In t (fst (copy_args [] (fargs f) (hn h))) -> occurs w t = true ->
+       hn h <= w /\ lookup w (hs h) = None /\ forall g u, In g (hdb h k) -> In u (fargs g) -> occurs w u = false).
+Proof. exact uses_see_stored_value. Qed.
+Print Assumptions C13_uses_see_stored_value.
+
+(* non-vacuity of the history theorems: X = f(Y), assertz(p(X, Z)), Y = a, then two simultaneous uses
+   p(f(b), c) and p(U, d) both succeed (the stored Y and Z are nobody's variables), backtracking over all
+   of it leaves the fact p(f(_), _) *)
+Example C13_history_nonvacuous :
+  let a := TAtom (d "a") in let b := TAtom (d "b") in let c := TAtom (d "c") in let dd := TAtom (d "d") in
+  let f x := TFun (d "f") [x] in
+  let ops := [HUnify (TVar 0) (f (TVar 1)); HAssert false (TFun (d "p") [TVar 0; TVar 2]); HUnify (TVar 1) a;
+              HCall (d "p") [f b; c]; HCall (d "p") [TVar 3; dd]; HObs [TVar 0; TVar 3]; HPop; HPop; HPop; HPop;
+              HRead (d "p") 2] in
+  Forall (op_ok 4) ops /\
+  exists h outs, hrun 50 (hinit 4) ops = Some (h, outs) /\
+    outs = [HOk; HOk; HOk; HAns [f b; c]; HAns [f (TVar 8); dd]; HSeen [f a; f (TVar 8)]; HOk; HOk; HOk; HOk;
+            HAll [[f (TVar 12); TVar 13]]].
+Proof.
+  cbv zeta. split.
+  - repeat match goal with
+    | |- Forall _ [] => apply Forall_nil
+    | |- Forall _ (_ :: _) => apply Forall_cons
+    | |- _ /\ _ => split
+    | |- True => exact I
+    | |- op_ok _ _ => simpl
+    | |- tprog _ _ => intros w Hw; do 4 (destruct w as [|w]; [reflexivity|]); simpl in Hw; discriminate
+    end.
+  - eexists. eexists. split; vm_compute; reflexivity.
+Qed.
 
 (* non-vacuity: X = f(Y), Y = a (a chain inside a structure), Z unbound: assertz(p(X, Z, Z)) stores
    p(f(a), _G, _G) with one new cell *)
